@@ -1,0 +1,12 @@
+//go:build verif
+
+package server
+
+import "github.com/codenotary/immudb/pkg/database"
+
+// SimDatabaseList exposes the server's database list to the simulation
+// harness (build tag verif only), e.g. to attach a pgsql front-end to a
+// server that listens on an in-memory listener.
+func (s *ImmuServer) SimDatabaseList() database.DatabaseList {
+	return s.dbList
+}
